@@ -2,7 +2,9 @@ package klevdb
 
 import (
 	"bytes"
+	"errors"
 	"fmt"
+	"os"
 	"sync"
 	"sync/atomic"
 	"time"
@@ -266,11 +268,27 @@ func (r *reader) GetAt(position int64) (message.Message, error) {
 }
 
 func (r *reader) Stat() (segment.Stats, error) {
-	return r.segment.Stat(r.params)
+	stats, err := r.segment.Stat(r.params)
+	if err != nil && errors.Is(err, os.ErrNotExist) {
+		// the index file might be missing (lost, pending its lazy rebuild):
+		// loading the index rebuilds it, then stat again
+		if _, ierr := r.getIndexMarked(); ierr == nil {
+			return r.segment.Stat(r.params)
+		}
+	}
+	return stats, err
 }
 
 func (r *reader) Backup(dir string) error {
-	return r.segment.Backup(dir)
+	err := r.segment.Backup(dir)
+	if err != nil && errors.Is(err, os.ErrNotExist) {
+		// the index file might be missing (lost, pending its lazy rebuild):
+		// loading the index rebuilds it, then backup again
+		if _, ierr := r.getIndexMarked(); ierr == nil {
+			return r.segment.Backup(dir)
+		}
+	}
+	return err
 }
 
 func (r *reader) Delete(rs *segment.RewriteSegment) (*reader, error) {
